@@ -49,6 +49,22 @@ macro_rules! harness_stream {
     };
 }
 
+/// Harness over the de-asynced twin tree (`crate::verif::sync`): streaming stubs + the path-producer
+/// and cache-tracker stubs re-targeted at the twin functions.
+macro_rules! harness_sync {
+    ($(#[$m:meta])* fn $name:ident() $body:block) => {
+        harness_stream! {
+            #[kani::stub(crate::verif::sync::streaming::segments::segment::Segment::get_log_path, crate::verif::stubs::log_path_stub)]
+            #[kani::stub(crate::verif::sync::streaming::segments::segment::Segment::get_index_path, crate::verif::stubs::index_path_stub)]
+            #[kani::stub(crate::verif::sync::streaming::partitions::partition::ConsumerOffset::new, crate::verif::su::consumer_offset_new_stub)]
+            #[kani::stub(crate::verif::sync::streaming::cache::memory_tracker::CacheMemoryTracker::initialize, crate::verif::sync::streaming::cache::memory_tracker::verif_hook::initialize_stub)]
+            #[kani::stub(crate::verif::sync::streaming::cache::memory_tracker::CacheMemoryTracker::get_instance, crate::verif::sync::streaming::cache::memory_tracker::verif_hook::get_instance_stub)]
+            $(#[$m])*
+            fn $name() $body
+        }
+    };
+}
+
 /// Harness that needs the real checksum function (bit-serial CRC-32/IEEE == crc32fast).
 macro_rules! harness_crc {
     ($(#[$m:meta])* fn $name:ident() $body:block) => {
@@ -96,7 +112,13 @@ macro_rules! typed_segments {
     };
 }
 
+/// De-asynced twin of the storage core, regenerated from /repo's current source by
+/// /verif/tools/deasync.py before every build (see that file for the why and the exact rules).
+#[path = "/verif/.cache/sync_tree/mod.rs"]
+pub mod sync;
+
 pub mod util;
+pub mod su;
 
 // Harness modules are selected per run by /verif/check (it writes this file before building), so
 // that one property's run does not pay code generation for every other property's harnesses.
